@@ -95,6 +95,16 @@ fn body_bytes(b: &Body) -> Vec<u8> {
 
 pub fn check_header(h: &VolHeaderSpec, file: &File) -> Check {
     let hdr = no_panic("File::header", || file.header())?.map_err(|e| Fail::new("header:decode-error", format!("{:?}", e)))?;
+    // the public Header::deserialize is generic over Read: short reads must not matter
+    {
+        let raw = h.encode();
+        for step in [1usize, 5, 23] {
+            let mut r = crate::runner::Chunked::new(&raw, step);
+            let hc = no_panic("Header::deserialize", || nexrad_data::volume::Header::deserialize(&mut r))?
+                .map_err(|e| Fail::new("header:decode-error-short-reads", format!("reader delivering {} byte(s) per read: {:?}", step, e)))?;
+            ensure!(hc == hdr, "header:depends-on-read-chunking", "header decoded from a reader delivering {} byte(s) per read differs", step);
+        }
+    }
     let utf8 = |b: &[u8]| String::from_utf8(b.to_vec()).ok();
     ensure_eq!(hdr.tape_filename(), utf8(&h.tape), "header:tape_filename@0");
     ensure_eq!(hdr.extension_number(), utf8(&h.ext), "header:extension_number@9");
@@ -121,6 +131,9 @@ pub fn check_file(c: &FileCase) -> Check {
 
     let records = no_panic("File::records", || file.records())?;
     ensure_eq!(records.len(), c.records.len(), "tiling:record-count");
+    // reuse: listing the records of the same file object again gives the same list
+    let again = no_panic("File::records", || file.records())?;
+    ensure!(again.len() == records.len() && again.iter().zip(records.iter()).all(|(a, b)| a.data() == b.data()), "tiling:second-listing-differs", "records() of the same File differs the second time");
     let mut concat: Vec<u8> = Vec::new();
     for (i, (rec, spec)) in records.iter().zip(c.records.iter()).enumerate() {
         ensure!(rec.data() == &encoded[i][..], "tiling:record-bytes", "record {} is not its size prefix plus |size| bytes ({} vs {} bytes)", i, rec.data().len(), encoded[i].len());
